@@ -23,6 +23,7 @@ import SpsdkVerif.Model.DbCache
 import SpsdkVerif.Proofs.DbCacheSpec
 import SpsdkVerif.Proofs.DbCacheInv
 import SpsdkVerif.Proofs.DbCacheSeq
+import SpsdkVerif.Proofs.DbCacheCodec
 
 namespace SpsdkVerif.C18
 open SpsdkVerif SpsdkVerif.DbCache
@@ -156,12 +157,31 @@ theorem schedule_terminates (env : Env) (G : Guards) (hG : G = quickG ∨ G = co
 
 /-! ## Non-vacuity -/
 
-/-- a concrete codec satisfying `PickleOK` exists is shown by the driver's toy codec on samples only; here:
-    the hypotheses of `schedule_safe` are satisfiable for the missing file and the theorem is not about an
-    empty set of schedules — two processes, one killed while holding the lock, the other one finishes. -/
-example : (initSt quickG none [[0], [0]]).procs.length = 2 := by decide
+/-- the pickle assumption is satisfiable: a concrete (computable, prefix-free) codec meets `PickleOK` -/
+example : ∃ env : Env, PickleOK env measuredPrefixExcs := pickleOK_inhabited
 
+/-- … and with it the hypothesis set of the theorems for the headline crash state (the empty file a kill right
+    after `open('wb')` leaves), for both caches — so `schedule_safe` applies to e.g. three processes on it. -/
+example : ∃ env : Env, PickleOK env measuredPrefixExcs ∧ FileSafe env quickG (some []) ∧ FileSafe env configG (some []) := by
+  refine ⟨Codec.codecEnv, Codec.codec_pickleOK, ?_, ?_⟩
+  · intro b hb
+    cases hb
+    simpa using crash_state_bytes_harmless Codec.codecEnv quickG Codec.codec_pickleOK caught_covers.1
+      default (by intro _ _ e he; cases he) 0
+  · intro b hb
+    cases hb
+    simpa using crash_state_bytes_harmless Codec.codecEnv configG Codec.codec_pickleOK caught_covers.2
+      default (by intro _ _ e he; cases he) 0
+
+example : (initSt quickG (some []) [[0], [0], [0]]).procs.length = 3 := by decide
+
+/-- the missing file is harmless by definition -/
 example (env : Env) : FileSafe env quickG none := by intro b hb; cases hb
+
+/-- a stale object (wrong fingerprint, wrong entries) satisfies `Sound` — the theorems cover it -/
+example : Sound Codec.codecEnv { ty := Codec.codecEnv.expectedTy, fp := Codec.codecEnv.fpOf [7] + 1, ents := [(7, Codec.codecEnv.loadCfg 7 + 1)] } := by
+  intro _ h
+  simp [keys] at h
 
 /-- the unrepaired source did NOT satisfy the obligations: its caught tuple misses `EOFError` -/
 example : Exc.caughtBy [.SPSDKError, .UnicodeDecodeError, .FileNotFoundError, .PickleError, .MemoryError] .EOFError = false := by decide
